@@ -57,3 +57,15 @@ Theorem C12_accepted_package_has_no_diagnostic : forall e p files qs,
   diagnostics (parse_files e p files []) = [] /\ qs = queries_of (parse_files e p files []) /\ qs <> [].
 Proof. exact accepted_no_diagnostics. Qed.
 Print Assumptions C12_accepted_package_has_no_diagnostic.
+
+(** ** from the statement to the process: a configuration of any number of packages in which one
+    package has one failing statement - in any of its query files, at any position - exits
+    non-zero, prints a diagnostic and writes nothing (Model/Package.v ties the two models). *)
+From Verif Require Import Model.Package Proofs.PkgFault.
+Theorem C12_failing_statement_writes_nothing : forall before after p name src stmts m raw fs1 fs2,
+  pi_files p = fs1 ++ (name, src, stmts) :: fs2 ->
+  parse_query (pi_env p) raw src (pi_positional p) = Err m -> In raw stmts ->
+  let r := generate true (map pkg_outcome_of (before ++ p :: after)) in
+  rr_output r = None /\ rr_status r <> 0 /\ 0 < rr_diags r /\ files_written true r = [].
+Proof. exact failing_statement_writes_nothing. Qed.
+Print Assumptions C12_failing_statement_writes_nothing.
